@@ -10,3 +10,23 @@ def image_parameters_close_points_not(rec):
     ch = c.get("changed") or [None]
     return (rec.get("property") == "C16" and c.get("kind") == "image" and ch[0] == "spacing-below-tolerance"
             and "image meshes compare equal although their points differ" in rec.get("what", ""))
+
+
+def merge_piece_without_new_points(rec):
+    """F-C06a: merging (or reading a .pvtu/.pvtp whose) later piece contributes NO new point — all its points already
+    exist in the pieces merged before it — drops that piece's cells and cell data (early `return fields1` in _merge).
+    Only this input class: the violation record names at least one piece without new points."""
+    what = rec.get("what", "")
+    part = (rec.get("case") or {}).get("part") or {}
+    pieces = part.get("pieces") or []
+    if rec.get("property") != "C06" or not what.startswith("F-C06a "):
+        return False
+    # re-derive from the recorded partition that some later piece indeed adds no new point
+    seen = set()
+    nofresh = False
+    for i, pc in enumerate(pieces):
+        pts = set(pc.get("points", []))
+        if i > 0 and pts <= seen:
+            nofresh = True
+        seen |= pts
+    return nofresh and bool(rec.get("pieces_without_new_points", True))
